@@ -880,6 +880,8 @@ def sinedvr_grid_rule(chk, src):
         npx.__dict__["sin"] = lambda x: Blob("sin")
         npx.__dict__["pi"] = Blob("pi")
         npx.__dict__["tensordot"] = lambda a, b, axes=0: Blob("outer")
+        npx.__dict__["outer"] = lambda a, b: Blob("outer")
+        npx.__dict__["multiply"] = Sym("multiply", outer=lambda a, b: Blob("outer"))
         npx.__dict__["sqrt"] = lambda x: Blob("sqrt")
         it = SymInterp(src, None, {"np": npx, "super": lambda *a: Sym("super", __init__=lambda *a2, **k2: None)})
         it.call_function(fi, [me, "dof", nbas, xi, xf], {"endpoint": endpoint})
@@ -1264,16 +1266,11 @@ def holstein_rule(chk, src):
     k1 = gen.get(r"a^\dagger a x", 0)
     c2 = sp.simplify(gen.get("x^2", 0) + k2)
     ro = src.func(PH, "Phonon.reorganization_energy")
-    rv = [r.value for r in ast.walk(ro.node) if isinstance(r, ast.Return)]
-    dd = {unparse(n.targets[0]): n.value for n in ast.walk(ro.node) if isinstance(n, ast.Assign)}
-    call = rv[0]
-    inner = call.args[0] if isinstance(call, ast.Call) and unparse(call.func) == "Quantity" else call
-    t = unparse(inner).replace(" ", "")
-    if "dis_diff" in dd:
-        t = t.replace("dis_diff", "(" + unparse(dd["dis_diff"]).replace(" ", "") + ")")
-    t = t.replace("self.omega[0]", "W0").replace("self.omega[1]", "W1").replace("self.dis[1]", "D1").replace("self.dis[0]", "D0")
-    from . import C09
-    c0 = C09.scalar_sym(ast.parse(t, mode="eval").body, {"W0": w0, "W1": w1, "D1": d1, "D0": sp.Integer(0)})
+    # the reorganisation energy: the property function is interpreted on a phonon stand-in with symbolic frequencies and displacement
+    from ..syminterp import SymInterp as _SI, Sym as _Sym
+    ph_ = _Sym("phonon", omega=[w0, w1], dis=[sp.Integer(0), d1])
+    c0 = _SI(src, None, {"Quantity": lambda v, *a_, **k_: v, "np": _Sym("np", sqrt=sp.sqrt, abs=sp.Abs)}).call_function(ro, [ph_])
+    c0 = sp.sympify(getattr(c0, "value", c0))
     chk.ob("holstein-square", "kinetic and ground-state potential: 1/2 p^2 + 1/2 w_g^2 x^2", sp.simplify(gen.get("p^2", 0) - sp.Rational(1, 2)) == 0 and sp.simplify(gen.get("x^2", 0) - w0 ** 2 / 2) == 0,
            fi.where, {"p^2": str(gen.get("p^2")), "x^2": str(gen.get("x^2"))}, {"p^2": "1/2", "x^2": "w0**2/2"}, line=fi.node.lineno)
     chk.ob("holstein-square", "excited-state curvature = 1/2 w_e^2", sp.simplify(c2 - w1 ** 2 / 2) == 0, fi.where, str(c2), "w1**2/2", line=fi.node.lineno)
